@@ -52,6 +52,7 @@ class DAGNodeStorage:
     switch_results: HiddenDict = field(default_factory=HiddenDict)
     recurrent_subgraph: HiddenDict = field(default_factory=HiddenDict)
     waiting_list: HiddenDict = field(default_factory=HiddenDict)
+    invalidated_nodes: t.Set[NodeId] = field(default_factory=set)
 
     def set_node_result(self, node_id: NodeId, data: t.Any) -> None:
         self.node_results.set(node_id, data)
@@ -115,3 +116,18 @@ class DAGNodeStorage:
             self.hide_processed_node(node_id)
             self.hide_node_result(node_id)
             self.switch_results.hide(node_id)
+
+    def invalidate_last_execution(self, *node_ids: NodeId) -> None:
+        """
+        Mark the nodes whose last execution is out of date. They keep their results until they are needed again
+        """
+        self.invalidated_nodes.update(node_ids)
+
+    def hide_invalidated_execution(self, node_ids: t.Iterable[NodeId]) -> None:
+        """
+        Hide the last execution of those nodes that have been invalidated, because they are going to be executed again
+        """
+        node_ids = self.invalidated_nodes.intersection(node_ids)
+
+        self.hide_last_execution(*node_ids)
+        self.invalidated_nodes.difference_update(node_ids)
